@@ -3,6 +3,7 @@ import PynnVerif.Proofs.LowHigh
 import PynnVerif.Proofs.GenLeafUpdates
 import PynnVerif.Proofs.GenGraphUpdates
 import PynnVerif.Proofs.GenApplyHigh
+import PynnVerif.Proofs.GenInit
 import Mathlib.Data.Nat.Basic  -- `LinearOrder Nat` for the concrete examples at the end
 
 /-!
@@ -334,6 +335,27 @@ theorem kernel_local_join_step_low_eq_high
   obtain ⟨e, _, _⟩ := applyHigh_eq_applyLow_ht hsymm T hT (zipGraph D I F) _ s hH hInv hTr
   rw [zh, zl]
   exact congrArg Prod.fst e
+
+/-- non-vacuity of `kernel_local_join_step_low_eq_high`: the arrays `make_heap(n, k)` returns (all `top`, `-1`, `0`) with
+empty `in_graph` sets satisfy its two hypotheses on the old graph, for every `n`, `k` and distance — the state NN-descent
+starts from. -/
+theorem low_eq_high_hypotheses_satisfiable (top : P) (n k : Nat) (dist : Nat → Nat → P) :
+    HeapTruth dist (zipGraph (Array.replicate n (Array.replicate k top))
+      (Array.replicate n (Array.replicate k (-1 : Int))) (Array.replicate n (Array.replicate k (0 : Int)))) ∧
+    InGraphInv dist (zipGraph (Array.replicate n (Array.replicate k top))
+      (Array.replicate n (Array.replicate k (-1 : Int))) (Array.replicate n (Array.replicate k (0 : Int))))
+      (Array.replicate n []) := by
+  rw [zipGraph_replicate]
+  refine ⟨mkGraph_heapTruth top n k dist, by simp [mkGraph], ?_⟩
+  intro p row _ q hq
+  simp [InGraph.has] at hq
+  split at hq
+  · rename_i l hl
+    obtain ⟨_, hl'⟩ := Array.getElem?_eq_some_iff.mp hl
+    simp only [Array.getElem_replicate] at hl'
+    subst hl'
+    simp at hq
+  · simp at hq
 
 /-- **A single leaf is exact.**  Let `leaf` enumerate the points `0..n-1` exactly once (trailing
 `-1` padding allowed), `dist` be symmetric with finite values, and
